@@ -33,7 +33,20 @@ def problem(precond):
         p["pk"] = None
         p["flow"] = dict(mu=[0.5, 3.0], sigma=[1.5, 1.6])
         p["like"] = gauss_loglike([1.0, 2.5], [0.7, 0.9])
-    elif precond != "tight":
+    elif precond == "cut":
+        # a likelihood that is exactly zero on a part of the support where the prior is not (hard cut at a < -2.5, ~12 % of the proposal)
+        p["bounds"] = {"a": [-5.0, 5.0], "b": [-4.0, 6.0]}
+        p["periodic"] = None
+        p["flow"] = dict(mu=[0.5, 1.0], sigma=[2.5, 2.2])
+        base = gauss_loglike([1.0, 2.0], [0.7, 0.9])
+
+        def cut_like(x):
+            x = np.asarray(x, dtype=np.float64).reshape(len(x), -1)
+            return np.where(x[:, 0] < -2.5, -np.inf, base(x))
+
+        p["like"] = cut_like
+        p["preconditioning"], p["pk"] = "none", None
+    elif precond not in ("tight", "cut"):
         p["bounds"] = {"a": [-5.0, 5.0], "b": [-4.0, 6.0]}
         p["periodic"] = None
         p["flow"] = dict(mu=[0.5, 1.0], sigma=[2.5, 2.2])
